@@ -318,6 +318,8 @@ func runC14Strings(ctx *Ctx) {
 func c14Substr(ctx *Ctx, n int) {
 	r := ctx.R
 	// the cluster-list function itself, exhaustively over small scopes
+	ctx.res.Exhaustive = true
+	ctx.res.Scope = "substr: every string of 0..4 single-cluster characters x offset -7..7 x length -3..7 (825 cases); and/or/not: all boolean arguments"
 	for l := 0; l <= 4; l++ {
 		cs := []string{"a", "b", "c", "d"}[:l]
 		for off := -7; off <= 7; off++ {
